@@ -307,6 +307,8 @@ class Exec:
 
     # ------------------------------------------------------------------ main loop
     def run(self, args, heap, reach):
+        if self.top:
+            self.V.cur_exec = self
         from .instrs import exec_instr
         V = self.V
         fn = self.fn
